@@ -236,8 +236,8 @@ example :
 open LB in
 /-- **A pair of streams refines two byte queues.** From the memory createBufferManager lays out (any size classes): for
     EVERY sequence of WriteBytes, WriteByte, Flush (shared-memory transport, or fall-back once the allocator ran dry - the
-    stream then stays in fall-back), readMore, ReadBytes, ReadString, Read, Peek, Discard, ReleasePreviousRead and Close (which empties the
-    closing end's own buffers and leaves the other direction's flushed bytes alone) calls on either end, in any
+    stream then stays in fall-back), readMore, ReadBytes, ReadByte, ReadString, Read, Peek, Discard, ReleasePreviousRead and
+    Close (which empties the closing end's own buffers and leaves the other direction's flushed bytes alone) calls on either end, in any
     order - any number of messages composed, in flight and half read at the same time, in both directions - in which every
     reader call finds its bytes buffered (what Stream.readMore waits for): each ReadBytes / Peek returns exactly the next
     bytes the peer flushed, in flush order; nothing is lost, duplicated, reordered or leaks from the other direction; and at
@@ -290,6 +290,15 @@ example :
       .readString true 5, .readInto true 3, .readBytes true 1]
     (LB.prunOut s0 ops).map (·.2) = some (LB.qrunOut {} ops).2 ∧
     (LB.qrunOut {} ops).2 = [[], [], [], [], [], [1, 2, 3, 4, 5], [6, 7, 8], [9]] := by
+  decide
+
+-- ReadByte across a slice boundary: the exhausted front slice is dropped and the byte comes from the next one
+example :
+    let s0 : LB.PSys := { m := LB.Mem.create [(4, 6)] }
+    let ops : List LB.POp := [.write false [1, 2, 3, 4, 5, 6], .flush false, .more true, .readBytes true 3, .readByte true,
+      .readByte true, .readByte true]
+    (LB.prunOut s0 ops).map (·.2) = some (LB.qrunOut {} ops).2 ∧
+    (LB.qrunOut {} ops).2 = [[], [], [], [1, 2, 3], [4], [5], [6]] := by
   decide
 
 -- Close in the middle: b closes while a message is in flight towards it and it has composed bytes; a's own unread data stays
